@@ -587,7 +587,11 @@ func (t *Trace) constVal(v ssa.Value, fr *TFrame, depth int) (interface{}, bool)
 		}
 		switch b := bv.(type) {
 		case tabRef:
-			return b.with(int(k)), true
+			r := b.with(int(k))
+			if _, isVal := x.(*ssa.Index); isVal && isLeafType(x.Type()) {
+				return t.leafOf(r, rfr, depth)
+			}
+			return r, true
 		case string:
 			if k >= 0 && int(k) < len(b) {
 				return int64(b[k]), true
@@ -603,6 +607,9 @@ func (t *Trace) constVal(v ssa.Value, fr *TFrame, depth int) (interface{}, bool)
 	case *ssa.Field:
 		bv, ok := t.constVal(x.X, rfr, depth+1)
 		if r, isRef := bv.(tabRef); ok && isRef {
+			if isLeafType(x.Type()) {
+				return t.leafOf(r.with(x.Field), rfr, depth)
+			}
 			return r.with(x.Field), true
 		}
 		return nil, false
